@@ -14,7 +14,8 @@ META = dict(
          "request they see with the k-th redirect of the chain (status from {301, 302, 303, 307}, a Location, a small body) and "
          "the request after the last redirect with 200. Location forms, relative to the URL just requested: absolute same origin, "
          "absolute other port, absolute other host, absolute without port (default port), absolute without path (other port), http->https (upgrade), https->http "
-         "(downgrade), relative 'x', '/x/y', '../x' - each with and without a query - and '?q=1'. All chains of length 0..2 with "
+         "(downgrade), relative 'x', '/x/y', '../x' - each with and without a query - '?q=1', and two forms whose query values carry percent-escaped "
+         "reserved characters ('?next=%2Fhome%3Fa%3D1%26b%3D2' relative, '/esc?co=A%26B&sum=1%2B1&eq=x%3Dy' absolute). All chains of length 0..2 with "
          "all four status rotations under all schedules with <= 1 deviation (quick), chains of length 3 with one status rotation "
          "under the default schedule (quick); thorough: all chains <= 3 with four rotations and <= 1 deviation, chains <= 2 with "
          "<= 2. Required: nothing raises; the origins see exactly the requests GET <path?query> of the urljoin-resolved "
@@ -24,11 +25,11 @@ META = dict(
          "Location leaves https for http no request is sent there (and no further request at all) and at most one response is "
          "delivered; no request ever reaches an http origin after an https one.",
     note="Origins are harness-played (they answer a complete request at once); the redirected method is not judged (the "
-         "statement does not define 303 semantics); only GET without a body is sent. Fragments, percent-encoded and non-ASCII "
+         "statement does not define 303 semantics); only GET without a body is sent. Fragments, percent-encoded paths and non-ASCII "
          "Locations are not generated. Connection loss, refused connections and TLS handshake "
          "faults are C25/C27's subject.",
 )
-from urllib.parse import urljoin, urlsplit
+from urllib.parse import urljoin, urlsplit, unquote, parse_qsl
 
 from mc import core, net, httpharness as hh
 
@@ -48,6 +49,12 @@ def origin_of(url):
 def target_of(url):
     sp = urlsplit(url)
     return (sp.path or "/") + ("?" + sp.query if sp.query else "")
+
+
+def canon(target):
+    """Request target up to percent-encoding spelling: (decoded path, decoded query pairs in order)."""
+    path, sep, query = target.partition("?")
+    return (unquote(path), parse_qsl(query, keep_blank_values=True))
 
 
 def forms(cur, n):
@@ -72,6 +79,9 @@ def forms(cur, n):
         ("dotdot", "../x%d" % n),
         ("dotdot+q", "../x%d?k=v%d" % (n, n)),
         ("query", "?q=%d" % n),
+        # percent-escaped reserved characters inside query values (an escaped return URL, '&', '+', '=')
+        ("escrel", "?next=%%2Fhome%%3Fa%%3D%d%%26b%%3D2" % n),
+        ("escabs", "%s://%s:%d/esc%d?co=A%%26B&sum=1%%2B1&eq=x%%3Dy" % (scheme, host, port, n)),
     ]
     if scheme == "http":
         out.append(("upgrade", "https://%s:8443/up%d" % (host, n)))
@@ -196,18 +206,18 @@ def execute(ch, start, chain, rot, part, states):
     for i in range(max(len(got), len(want))):
         g = got[i] if i < len(got) else None
         w = want[i] if i < len(want) else None
-        if g == w:
+        if g is not None and w is not None and (g[0], g[1], canon(g[2]), g[3]) == (w[0], w[1], canon(w[2]), w[3]):
             continue
         if g is None:
             nm = chain[i - 1][0]
-            viol.append(("not-followed|%s" % ("relative" if nm.split("+")[0] in ("rel", "abspath", "dotdot", "query") else nm.split("+")[0]),
+            viol.append(("not-followed|%s" % ("relative" if nm.split("+")[0] in ("rel", "abspath", "dotdot", "query", "escrel") else nm.split("+")[0]),
                          "redirect %d (%d, Location: %s) was not followed: expected GET %s at %s://%s:%d, no request was sent"
                          % (i, STATUSES[(i - 1 + rot) % 4][0], chain[i - 1][1], w[2], w[0][0], w[0][1], w[0][2])))
         elif w is None:
             viol.append(("extra-request", "unexpected request %d: %s %s at %s://%s:%d (Host: %s)" % (i + 1, g[1], g[2], g[0][0], g[0][1], g[0][2], g[3])))
         else:
             nm = chain[i - 1][0] if i else "start"
-            what = "wrong-origin" if g[0] != w[0] else "wrong-target" if (g[1], g[2]) != (w[1], w[2]) else "wrong-host-header"
+            what = "wrong-origin" if g[0] != w[0] else "wrong-target" if (g[1], canon(g[2])) != (w[1], canon(w[2])) else "wrong-host-header"
             viol.append(("%s|%s" % (what, nm.split("+")[0]),
                          "request %d after Location %r: got %s %s at %s://%s:%d (Host: %s), expected %s %s at %s://%s:%d (Host: %s)"
                          % (i + 1, chain[i - 1][1] if i else None, g[1], g[2], g[0][0], g[0][1], g[0][2], g[3],
@@ -355,7 +365,8 @@ def run():
         "TLS is the net engine's plaintext-moving TLS double (handshakes succeed); contexts ioflo creates itself come from an "
         "ssl-module double in ioflo.aio.tcp.clienting",
         "the reference resolution of a Location is urllib.parse.urljoin(URL of the redirected request, Location); the expected "
-        "request target is its path plus '?query'; the expected Host header is host:port of the resolved origin",
+        "request target is its path plus '?query', compared up to percent-encoding spelling (decoded path, decoded query "
+        "name/value pairs in order); the expected Host header is host:port of the resolved origin",
         "'reissues the request' is read as: same method (GET) to the resolved location; method rewriting for 303 is not judged",
         "a Location that leaves https for http must not be followed; what the client delivers then (an errored response, "
         "nothing, or an exception) is not judged beyond 'at most one response, carrying the chain so far in order'",
@@ -364,7 +375,7 @@ def run():
         "states = distinct client snapshots after a service call; transitions = service calls; traces = executions judged",
     ]
     return ck.finish(
-        rule="2 start schemes x every chain of <= 3 redirects over 16 Location forms (per current URL) x status rotations x "
+        rule="2 start schemes x every chain of <= 3 redirects over 18 Location forms (per current URL) x status rotations x "
              "schedules within the deviation bound (side order, client short reads); see coverage.passes",
         exhaustive=False,
         explanation="exhaustive over the chain grammar within length 3; schedules within the deviation bound")
